@@ -663,7 +663,18 @@ func (o *orbitDB) DetermineAddress(ctx context.Context, name string, storeType s
 	}
 
 	// Create the database address
-	return address.Parse(path.Join("/orbitdb", manifestHash.String(), name))
+	dbAddress, err := address.Parse(path.Join("/orbitdb", manifestHash.String(), name))
+	if err != nil {
+		return nil, err
+	}
+
+	// path.Join cleans the name: parent-directory segments must not be able to
+	// replace the manifest hash by a root of the caller's choosing
+	if !dbAddress.GetRoot().Equals(manifestHash) {
+		return nil, fmt.Errorf("invalid database name %q: it does not stay below the database root", name)
+	}
+
+	return dbAddress, nil
 }
 
 func (o *orbitDB) loadCache(directory string, dbAddress address.Address) (datastore.Datastore, error) {
